@@ -235,6 +235,8 @@ def run(rep):
     n = 24 if thorough else 4
     for i in range(n * (3 if dis else 1)):
         found += one_project(rep, rng, i, odd_names=(i % 2 == 1))
+    for i in range(8 if thorough else 2):
+        found += goal_independence(rep, rng, i)
     rep.stage('projects', configured=rep.traces, failures=found)
     if rep.traces == 0:
         rep.fail('no generated project could be configured: the system-level comparison did not run',
@@ -254,6 +256,54 @@ def replay(rep, path):
 
 
 # ----------------------------------------------------------------------------- shared with C01 / C02
+def goal_independence(rep, rng, idx):
+    """C01/C06 system level, Make only: the process a step starts must not depend on the GOAL Make was asked for.
+    GNU Make hands target-specific variables down to the prerequisites that are built on behalf of a target, so a
+    library linked as a prerequisite of a program would inherit the program's LDLIBS/LDFLAGS/CFLAGS unless its own
+    (pattern-specific) value shields it.  Two fresh build directories of one generated project: in one the binaries are
+    requested leaves first (every library is its own goal), in the other dependents first (libraries are built on behalf
+    of the programs); the multisets of (argv, cwd, environment) must be equal.  Half of the projects are configured with
+    no flag variable in the environment (empty GLOBAL_x), half with all of them."""
+    p = projgen.generate(rng, rep, odd_names=False, n_exe=2, n_lib=2, with_commands=False, with_tests=False)
+    conf_env = {} if idx % 2 == 0 else {'CFLAGS': '-O1', 'LDFLAGS': '-Wl,--as-needed', 'LDLIBS': '-lm', 'CPPFLAGS': '-DCPP=1'}
+    with project.Scratch('goal') as s:
+        project.write_tree(s.src, p.tree())
+        ba, bb = s.build + '_a', s.build + '_b'
+        for b in (ba, bb):
+            rc, out = project.configure(s.src, b, 'make', [], conf_env)
+            if rc != 0:
+                rep.count('goal:configure_failed')
+                rep.sample({'configure_failed': out[-300:], 'script': p.script()})
+                return 0
+        rules = make_rules(project.read(ba, 'Makefile'))
+        bins = [t for t in rules if '/' not in t and re.match(r'(lib|prog)', t) and not INTERNAL.search(t)]
+        libs = sorted(t for t in bins if t.startswith('lib'))
+        exes = sorted(t for t in bins if not t.startswith('lib'))
+        if not libs or not exes:
+            rep.count('goal:no_library_or_program')
+            return 0
+        res = []
+        for b, goals in ((ba, libs + exes), (bb, exes + libs)):
+            rc, recs, out = project.make(b, goals, stub_tools=True)
+            if rc != 0:
+                rep.fail('make fails on the generated project (goals %r): %s' % (goals, out[-300:]),
+                         {'script': p.script(), 'goals': goals, 'make_output': out[-1500:], 'conf_env': conf_env})
+                return 1
+            res.append(collections.Counter(key_of(r, [(b, '$B'), (s.src, '$S')]) for r in recs))
+        for k in res[0]:
+            rep.case('goal:%d:%r' % (idx, k[0]), True)
+        rep.count('goal:projects')
+        if res[0] != res[1]:
+            only_a = list((res[0] - res[1]).elements())[:3]
+            only_b = list((res[1] - res[0]).elements())[:3]
+            return rep.fail('the processes Make starts depend on the goal it was asked for: with goals %r only %r ; with goals %r only %r' % (
+                libs + exes, [k[0] for k in only_a], exes + libs, [k[0] for k in only_b]),
+                {'script': p.script(), 'files': sorted(p.files), 'conf_env': conf_env, 'goals_a': libs + exes, 'goals_b': exes + libs,
+                 'only_with_goals_a': only_a, 'only_with_goals_b': only_b})
+    rep.traces += 1
+    return 0
+
+
 def contains_sublist(hay, needle):
     """needle occurs in hay as an order-preserving subsequence (semantic flags such as -fPIC may sit in between)"""
     it = iter(hay)
